@@ -262,7 +262,17 @@ def _ivar_over_buffer(ts, lab, e):
     if b["array"] and b["array"][0] == "self" and len(b["array"]) == 2 and b["array"][1] in ts.buffers:
         return True
     end = b["end"]
-    return b["array"] is None and isinstance(end, tuple) and ((end[0] == "pre" and (end[1].count(".") == 1 and end[1].split(".")[-1] in ts.len_fields)) or end[0] == "len")
+    if b["array"] is not None or not isinstance(end, tuple):
+        return False
+    if end[0] == "pre" and end[1].count(".") == 1 and end[1].split(".")[-1] in ts.len_fields:
+        return True
+    # `0..buffer.len()` — the length of the RING, not of some other slice (a 16-element table of literals)
+    if end[0] == "len" and len(end) == 2:
+        a_ = end[1]
+        while isinstance(a_, tuple) and a_ and a_[0] in ("store", "fill"):
+            a_ = a_[1]
+        return isinstance(a_, tuple) and a_[0] == "pre" and a_[1].startswith("self.") and a_[1].split(".", 1)[1] in ts.buffers
+    return False
 
 
 def _try_cursor(ts, x, posts, P, usize_state):
